@@ -1,5 +1,8 @@
 (* Properties/C32.v — a proxy's signal stream yields signals only from the name's current owner.
    Only statements, each closed by [exact] of a lemma of C32/{Proofs,Forged,Witness}.v, and their assumptions.
+   The model follows /repo as repaired by 902c9069 (a buffered release notification is applied) and 0bffda5d
+   (only the bus driver's NameOwnerChanged changes the tracked owner): both former known classes are gone and the
+   theorems hold at full strength.
 
    run cf h sched   the model (C32/Model.v): the wire history h (what the bus sends, in order) is read by the socket
                     reader (ATick), Proxy::receive_signal creates the stream (AClient: subscribe_dest_owner_change,
@@ -9,45 +12,47 @@
    spec_yield cf start h   C32/Spec.v: the wanted signals (path, interface, member) received after [start] whose sender
                     is the owner at that point; the owner is the lookup answer updated by every later
                     NameOwnerChanged of the bus driver for the name (and nothing else).
-   bus_history      every signal carries a sender; the driver is never named as owner; the lookup answer agrees
-                    with the notifications the bus sent between installing the match and answering.
-   Known_C32        the run dropped a buffered release notification (w_lost), or the proxy's own interface is
-                    org.freedesktop.DBus and the history contains a NameOwnerChanged-shaped signal on its path. *)
+   bus_history      what a message bus guarantees: every signal carries a sender; the driver is never named as owner;
+                    the lookup answer agrees with the notifications sent between installing the match and answering;
+                    the driver does not emit NameOwnerChanged from the *proxied* object (only relevant for a proxy
+                    whose own interface is org.freedesktop.DBus; the driver's object is /org/freedesktop/DBus). *)
 From Coq Require Import List NArith Bool.
 Import ListNotations.
 From ZV Require Import Base.Bytes C32.Model C32.Spec C32.Proofs C32.Forged C32.Witness.
 Local Open Scope N_scope.
 
-(* Outside the known classes, for every bus history and EVERY schedule: what has been yielded so far is a
-   prefix of what the specification lists, in the same order (nothing from a non-owner, nothing out of order,
-   nothing twice); and once the whole history has been read and a poll finds the stream empty, it is all of it. *)
-Theorem C32_owner_partial : forall (cf : cfg) (h : list wmsg) (sched : list action),
-  bus_history cf h = true -> ~ Known_C32 cf h sched ->
+(* For every bus history and EVERY schedule: what has been yielded so far is a prefix of what the specification
+   lists, in the same order (nothing from a non-owner, nothing out of order, nothing twice); and once the whole
+   history has been read and a poll finds the stream empty, it is all of it. *)
+Theorem C32_owner : forall (cf : cfg) (h : list wmsg) (sched : list action),
+  bus_history cf h = true ->
   let w := run cf h sched in
   (exists rest, spec_yield cf (w_start w) h = yielded w ++ rest) /\
   (w_todo w = [] -> drained w -> yielded w = spec_yield cf (w_start w) h).
-Proof. exact owner_partial. Qed.
-Print Assumptions C32_owner_partial.
+Proof. exact owner_full. Qed.
+Print Assumptions C32_owner.
 
 (* ... and at any moment: if a poll comes back empty, exactly the specified signals among the messages read
    so far have been yielded (nothing is held back, whatever the schedule did). *)
-Theorem C32_nothing_withheld_partial : forall (cf : cfg) (h : list wmsg) (sched : list action),
-  bus_history cf h = true -> ~ Known_C32 cf h sched ->
+Theorem C32_nothing_withheld : forall (cf : cfg) (h : list wmsg) (sched : list action),
+  bus_history cf h = true ->
   let w := run cf h sched in
   drained w -> yielded w = spec_yield cf (w_start w) (firstn (N.to_nat (w_seq w)) h).
 Proof. exact poll_pending_complete. Qed.
-Print Assumptions C32_nothing_withheld_partial.
+Print Assumptions C32_nothing_withheld.
 
 (* ... and the panic site of SignalStream::new (`.expect("`NameOwnerChanged` signal has no args")`) is never reached. *)
-Theorem C32_never_panics_partial : forall (cf : cfg) (h : list wmsg) (sched : list action),
-  bus_history cf h = true -> ~ Known_C32 cf h sched -> w_ph (run cf h sched) <> PhPanic.
+Theorem C32_never_panics : forall (cf : cfg) (h : list wmsg) (sched : list action),
+  bus_history cf h = true -> w_ph (run cf h sched) <> PhPanic.
 Proof. exact never_panics. Qed.
-Print Assumptions C32_never_panics_partial.
+Print Assumptions C32_never_panics.
 
 (* Ownership claims not sent by the bus driver never change what is yielded: replace every forged
    NameOwnerChanged (any sender but org.freedesktop.DBus, any path, any claimed owner) by another forged one or
    by noise, at the same positions — under every schedule the run yields the same and is in the same phase.
-   No hypothesis on the history; only: the proxy's own interface is not org.freedesktop.DBus. *)
+   No hypothesis on the history.  (For a proxy whose own interface is org.freedesktop.DBus a peer's signal of that
+   shape on the proxy's path is an ordinary *wanted* signal — yielded iff the peer is the owner, by C32_owner — so it
+   cannot be replaced by noise; it no longer changes the owner either: C32_repaired_histories.) *)
 Theorem C32_forged_ignored : forall (cf : cfg) (h h' : list wmsg) (sched : list action),
   c_pi cf <> I_DBUS -> Forall2 claims_differ h h' ->
   yielded (run cf h sched) = yielded (run cf h' sched) /\ w_ph (run cf h sched) = w_ph (run cf h' sched).
@@ -55,39 +60,25 @@ Proof. exact forged_ignored. Qed.
 Print Assumptions C32_forged_ignored.
 
 (* non-vacuity: creation with a notification before the lookup answer, signals from owner, former owner and
-   stranger, an ownership change, forged claims on the driver's and on the proxy's path: outside the classes,
-   everything read and polled, exactly the two signals of the owner of the moment were yielded *)
-Theorem C32_partial_nonvacuous :
-  bus_history cf_sig h_clean = true /\ ~ Known_C32 cf_sig h_clean sched_clean /\
+   stranger, an ownership change, forged claims on the driver's and on the proxy's path: everything read and
+   polled, exactly the two signals of the owner of the moment were yielded *)
+Theorem C32_nonvacuous :
+  bus_history cf_sig h_clean = true /\
   let w := run cf_sig h_clean sched_clean in
   w_todo w = [] /\ drained w /\ yielded w = [5; 11] /\ spec_yield cf_sig (w_start w) h_clean = [5; 11].
 Proof. exact clean_example. Qed.
-Print Assumptions C32_partial_nonvacuous.
+Print Assumptions C32_nonvacuous.
 
-(* known finding 1: the name is released right after the lookup answer and both messages are read before
-   SignalStream::new runs again — the release is dropped and the former owner's signal (5) is yielded *)
-Theorem C32_release_buffered_refuted :
-  bus_history cf_sig h_release = true /\ forgeable cf_sig h_release = false /\
-  let w := run cf_sig h_release sched_release in
-  w_lost w = true /\ yielded w = [5] /\ spec_yield cf_sig (w_start w) h_release = [].
-Proof. exact release_buffered_refuted. Qed.
-Print Assumptions C32_release_buffered_refuted.
-
-(* known finding 2: a proxy on interface org.freedesktop.DBus trusts a peer's NameOwnerChanged on its own path:
-   the stranger's signal (6) is yielded, the owner's (5) is not *)
-Theorem C32_dbus_iface_forgery_refuted :
-  bus_history cf_dbus h_forge = true /\ forgeable cf_dbus h_forge = true /\
-  let w := run cf_dbus h_forge (sched_one_by_one 6) in
-  w_lost w = false /\ yielded w = [6] /\ spec_yield cf_dbus (w_start w) h_forge = [5].
-Proof. exact dbus_iface_forgery_refuted. Qed.
-Print Assumptions C32_dbus_iface_forgery_refuted.
-
-(* hence the statement for ALL bus histories and schedules (Definition C32_full_statement in C32/Witness.v,
-   written out here) is false on this tree *)
-Theorem C32_full_statement_refuted :
-  ~ (forall (cf : cfg) (h : list wmsg) (sched : list action), bus_history cf h = true ->
-       let w := run cf h sched in
-       (exists rest, spec_yield cf (w_start w) h = yielded w ++ rest) /\
-       (w_todo w = [] -> drained w -> yielded w = spec_yield cf (w_start w) h)).
-Proof. exact full_statement_refuted. Qed.
-Print Assumptions C32_full_statement_refuted.
+(* the witnesses of the two repaired findings are bus histories (so C32_owner covers them) and now run as specified:
+   1. release read together with the lookup answer: nothing is yielded (was: the former owner's signal 5);
+   2. proxy on org.freedesktop.DBus, a peer's claim on the proxy's path: the owner's signal 5 is yielded (was: the
+      claimant's signal 6) *)
+Theorem C32_repaired_histories :
+  (bus_history cf_sig h_release = true /\
+   let w := run cf_sig h_release sched_release in
+   w_todo w = [] /\ drained w /\ yielded w = [] /\ spec_yield cf_sig (w_start w) h_release = []) /\
+  (bus_history cf_dbus h_forge = true /\
+   let w := run cf_dbus h_forge (sched_one_by_one 6) in
+   w_todo w = [] /\ drained w /\ yielded w = [5] /\ spec_yield cf_dbus (w_start w) h_forge = [5]).
+Proof. exact repaired_histories. Qed.
+Print Assumptions C32_repaired_histories.
